@@ -124,6 +124,8 @@ def gen_density(ctx, guard):
     for g in (-354.8, -354.6):
         for h in (0.0, 0.3, 1.0):
             add(g, h, grid=12)
+    # sharply peaked integrand (width 1/(4|gamma|) at h = 0): scipy's quad needs more than its default 50 subdivisions
+    add(-125696.0, 0.0, grid=12)
     # random parameters (nu, theta0, beta included), gamma log-uniform in magnitude
     nrand = ctx.pick(60, 2000) - len(cases)
     k = 0
@@ -309,7 +311,7 @@ def gen_histories(ctx):
         n = rng.randint(2, 30)
         if k % 7 == 3:
             n = rng.choice([2, 3, 29, 30])
-        coarse = (not ctx.quick and rng.random() < 0.06) or (ctx.quick and k == N - 1)
+        coarse = not ctx.quick and rng.random() < 0.06
         p0 = rng.randint(max(n, 10), 39) if coarse else rng.randint(max(n, 40), 70)
         c = {'kind': 'hist', 'via': via, 'n': n, 'pts_l': [p0, p0 + 10, p0 + 20], 'extrap': rng.choice(['lin', 'log']),
              'tfs': [1e-3, 1e-4], 'theta0': 1.0, 'coarse': coarse}
@@ -366,6 +368,10 @@ def gen_histories(ctx):
             c['pts_l'] = [p0, p0 + 10, p0 + 20]; c['coarse'] = False
         c['id'] = len(cases)
         cases.append(c)
+    # one fixed coarse grid list "at the sample size": grid error alone is ~4 % here (reported under KEY_COARSE)
+    cases.append({'kind': 'hist', 'via': 'const', 'n': 9, 'pts_l': [9, 19, 29], 'extrap': 'lin', 'tfs': [1e-3, 1e-4], 'theta0': 1.0, 'coarse': True,
+                  'hist': [{'kind': 'const', 'nu': 4.0, 'T': 0.125}, {'kind': 'const', 'nu': 0.3125, 'T': 1.125},
+                           {'kind': 'const', 'nu': 2.0, 'T': 0.1875}, {'kind': 'const', 'nu': 2.5, 'T': 0.015625}], 'id': len(cases)})
     return cases
 
 def coq_epochs(hist):
